@@ -71,7 +71,7 @@ def gen(rng, tier, i):
     return plan
 
 
-gen = _gen.with_lines(gen, ['_send_ping', 'schedule_ping', 'check_ping_timeout', 'receive', '_service_task', 'close'])
+gen = _gen.with_lines(gen, ['_send_ping', 'schedule_ping', 'check_ping_timeout', 'receive', '_service_task', 'close'], cluster=0.0)
 
 def run(plan, sched_values=None, sched_seed=0):
     h = run_server_scenario(plan, sched_values, sched_seed)
